@@ -307,6 +307,7 @@ type world struct {
 	faultsHit      int
 	lastRun        *verifsim.Run
 	inactiveInLockDeletes int
+	midRan, midExcluded   int
 	hashCache      map[uintptr]cachedHash
 }
 
@@ -650,6 +651,10 @@ type act struct {
 	Fin string `json:"fin,omitempty"` // unfin: finalizer
 	F   string `json:"f,omitempty"`   // fault kind (reconciles): err-conflict|err-server|errafter-timeout|crash-before|crash-after
 	K   int    `json:"k,omitempty"`   // fault call index
+	// Mid, if set (rec-def / rec-off only), is an interloper: another actor's whole step runs
+	// atomically just before API call number MidK of this reconcile.
+	Mid  *act `json:"mid,omitempty"`
+	MidK int  `json:"midk,omitempty"`
 }
 
 func (a act) String() string { return verifkit.JSON(a) }
@@ -824,6 +829,27 @@ func (w *world) do(a act) string {
 		w.claimCreated[a.I] = true
 		return "ok"
 
+	case "create-xr": // a user creates an XR of their own (not bound to any claim)
+		if w.sim.Get(xrCRDKey) == nil {
+			return "disabled"
+		}
+		xr := w.env.NewXR(fmt.Sprintf("ux%d", a.I), compName)
+		if err := w.sim.Client(actorUser).Create(ctx, xr); err != nil {
+			return "refused: " + err.Error()
+		}
+		return "ok"
+	case "create-extra-claim": // a user creates one more claim
+		if w.sim.Get(claimCRDKey) == nil {
+			return "disabled"
+		}
+		cm := ucl.New(ucl.WithGroupVersionKind(verifenv.ClaimGVKDefault))
+		cm.SetName(fmt.Sprintf("cx%d", a.I))
+		cm.SetNamespace(nsName)
+		cm.SetCompositionReference(&corev1.ObjectReference{Name: compName})
+		if err := w.sim.Client(actorUser).Create(ctx, cm); err != nil {
+			return "refused: " + err.Error()
+		}
+		return "ok"
 	case "del-claim":
 		if a.I >= w.u.Claims {
 			return "disabled"
@@ -887,13 +913,13 @@ func (w *world) do(a act) string {
 		return w.outcome(run, a, err)
 	case "rec-def":
 		run := w.newRun(actorDef, a)
-		r := definition.NewReconciler(definition.NewClientApplicator(run.Client()), definition.WithControllerEngine(w.eng), definition.WithRecorder(w.env.Recorder),
+		r := definition.NewReconciler(definition.NewClientApplicator(w.interloped(run, a, xrGK)), definition.WithControllerEngine(w.eng), definition.WithRecorder(w.env.Recorder),
 			definition.WithOptions(apiextcontroller.Options{Options: xpcontroller.DefaultOptions()}))
 		_, err := r.Reconcile(ctx, req("", xrdName))
 		return w.outcome(run, a, err)
 	case "rec-off":
 		run := w.newRun(actorOff, a)
-		r := offered.NewReconciler(offered.NewClientApplicator(run.Client()), offered.WithControllerEngine(w.eng), offered.WithRecorder(w.env.Recorder),
+		r := offered.NewReconciler(offered.NewClientApplicator(w.interloped(run, a, claimGK)), offered.WithControllerEngine(w.eng), offered.WithRecorder(w.env.Recorder),
 			offered.WithOptions(apiextcontroller.Options{Options: xpcontroller.DefaultOptions()}))
 		_, err := r.Reconcile(ctx, req("", xrdName))
 		return w.outcome(run, a, err)
